@@ -1671,8 +1671,12 @@ func domDepth(b *ssa.BasicBlock) int {
 
 // topContract: the contract of the function being verified (nil inside inlined frames without one).
 func (fr *Frame) topContract() *Contract {
-	if fr.top {
-		return fr.contract
+	t := fr
+	for t.up != nil {
+		t = t.up
+	}
+	if t.top {
+		return t.contract
 	}
 	return nil
 }
